@@ -272,11 +272,20 @@ def replay(path):
     vlib.run_harness(PKG, ["one", "--scenario", json.dumps(rec), "--out", t])
     n, verdicts, _ = _judge(t, shards=1)
     bad = False
+    findings = [f for f in vlib.load_findings() if f.get("property") == PID and f.get("kind") == "finding"]
+    with open(t) as f:
+        kind = json.loads(f.readline())["sc"]["kind"]
     for _, vs in verdicts:
         for v in vs:
             print("verdict:", v)
             if v[0] in ("entry", "leak"):
-                bad = True
+                key = {"check": v[0], "key": v[1], "kind": kind, "expected": v[2], "observed": v[3]}
+                known = [f for f in findings if f.get("match") and
+                         all(vlib._match_field(key.get(k), x) for k, x in f["match"].items())]
+                if known:
+                    print(f"KNOWN-FINDING: property={PID} {known[0]['id']}: {known[0]['what']}")
+                else:
+                    bad = True
     if not verdicts:
         print("accepted")
     if bad:
